@@ -27,7 +27,7 @@ def gen_tree(seed, tier):
         leaf = ch.randrange("workload", ("leaf", i), n)
         style = ch.weighted("workload", ("style", i), [("needed", 5), ("needed-forged-aux", 2), ("needed-forged-leaf", 2), ("needed-missing", 1.5),
                                                        ("random-subset", 2), ("all", 0.5), ("extra-garbage-index", 0.5),
-                                                       ("random-subset-forged-leaf", 1.5)])
+                                                       ("random-subset-forged-leaf", 1.5), ("needed-resplit-pair", 1.5)])
         ops.append(["set", leaf, style, ch.randrange("workload", ("which", i), 1 << 30), ch.randrange("workload", ("order", i), 1 << 30),
                     ch.chance("workload", ("incl", i), 0.5)])
     return {"engine": "structsim", "seed": seed, "cfg": {"leaves": n, "datapat": ch.randint("config", "pat", 1, 1 << 30)}, "ops": ops}
@@ -52,6 +52,11 @@ def exec_tree(case):
         bad("size", "IncompleteHashTree(%d) has %d nodes, complete tree has %d" % (n, len(t), len(ref)))
         return result(viol, probes, case, 0)
     t.set_hashes({0: ref[0]})
+    # another reader in the same process has already validated the whole (genuine) tree: whatever the code remembers
+    # from that must not help a forger
+    t_other = IncompleteHashTree(n)
+    t_other.set_hashes({0: ref[0]})
+    t_other.set_hashes(dict(enumerate(ref)), leaves=dict(enumerate(leaves)))
     ncalls = 0
     for opi, (kind, leaf, style, which, order, include_leaf) in enumerate(case["ops"]):
         needed = sorted(t.needed_hashes(leaf, include_leaf=False))
@@ -78,6 +83,17 @@ def exec_tree(case):
             for i in needed:
                 offered[i] = ref[i]
         leafval = leaves[leaf]
+        if style == "needed-resplit-pair" and n >= 2:
+            # the leaf and its sibling re-cut at another byte boundary: the same bytes in a row, two different values
+            li = first_leaf + leaf
+            sib = li + 1 if li % 2 == 1 else li - 1
+            if sib < len(ref):
+                cut = 1 + which % 31
+                if li % 2 == 1:      # leaf is the left child: L+S -> (L + S[:cut], S[cut:])
+                    leafval, offered[sib] = ref[li] + ref[sib][:cut], ref[sib][cut:]
+                else:                # leaf is the right child: S+L -> (S[:-cut], S[-cut:] + L)
+                    offered[sib], leafval = ref[sib][:-cut], ref[sib][-cut:] + ref[li]
+                forged = True
         if style in ("needed-forged-leaf", "random-subset-forged-leaf"):
             # (the leaf may already be validated: the batch then contradicts a value the tree holds, while also
             # carrying genuine values for nodes it does not know yet)
